@@ -284,6 +284,7 @@ func (e *Env) StartSender(d int) {
 			e.Mu.Lock()
 			ds.SendStart = append(ds.SendStart, e.Trace.Now())
 			e.Mu.Unlock()
+			e.notify()
 			err := snd.Send(ds.Offered[i])
 			e.Mu.Lock()
 			if err != nil {
